@@ -1757,6 +1757,16 @@ class ParseValueInterp(FxInterp):
         return super().val(e, env)
 
 
+def walk_nodes(n):
+    if isinstance(n, dict):
+        yield n
+        for v in n.values():
+            yield from walk_nodes(v)
+    elif isinstance(n, list):
+        for v in n:
+            yield from walk_nodes(v)
+
+
 class RecInterp(FxInterp):
     """FxInterp that records calls of the named methods / functions instead of following them.  `self.calls` collects (name, [argument values]);
     a recorded call evaluates to ('rec', name, receiver value or None, [argument values]) so that later records show what flowed where.
@@ -1898,6 +1908,12 @@ class RecInterp(FxInterp):
                 return recv
             if recv == ('opaque',) and self._workspace_method(e) is None:
                 return ('opaque',)          # whatever is derived from an unmodelled value is unmodelled (`path.to_vec()`, `x.clone()`)
+            if recv is not None and any(x.get('k') in ('mcall', 'call') for x in walk_nodes(e['recv'])):
+                # the receiver was evaluated just now; it may have had an effect (`self.value.take()`), so the call goes on with the value, not with the expression
+                self._rv = getattr(self, '_rv', 0) + 1
+                nm = f'@rv{self._rv}'
+                env[nm] = recv
+                return super().val(dict(e, recv={'k': 'path', 'res': 'Local', 'path': nm, 't': peel(e['recv']).get('t'), 'l': e.get('l')}), env)
         if k == 'struct' and 'Range' not in (e.get('path') or ''):
             f = {}
             for x in e.get('fields', []):
